@@ -132,6 +132,32 @@ Definition alloc_short_t (pl : list ledger) (infos : list devinfo) (t : nat) (rq
 Definition no_device_t (pl : list ledger) (t : nat) (rq : rawreq) : bool :=
   is_req (treq_of rq t) && dis_empty (total (ledger_of pl t)).
 
+(* ---------- preemption dry-run (PreFilter, RemovePod per victim, Filter): the verdict is judged
+   on the ledger in which the victims' holdings count as free *)
+(* a device that can have been chosen: listed in the Device CR, exposing something, present in
+   the free map, the request fitting every exposed resource *)
+Definition maybe_minor (l : ledger) (minors : list nat) (per : res) (m : nat) : bool :=
+  memn m minors && negb (ris_zero (ores (dget (total l) m)))
+  && match dget (free l) m with Some _ => fits_exposed l per m | None => false end.
+Definition maybe_count (l : ledger) (minors : list nat) (per : res) : nat :=
+  length (filter (maybe_minor l minors per) (seq 0 (length (free l)))).
+Definition preempt_enough_t (pl : list ledger) (infos : list devinfo) (victims : list Z)
+           (t : nat) (rq : rawreq) : bool :=
+  match treq_of rq t with
+  | TReq per count _ =>
+      Nat.leb (desired_of count)
+              (maybe_count (preempt_ledger (ledger_of pl t) victims) (minors_of infos t) per)
+  | _ => true
+  end.
+Definition preempt_short_t (pl : list ledger) (infos : list devinfo) (victims : list Z)
+           (t : nat) (rq : rawreq) : bool :=
+  match treq_of rq t with
+  | TReq per count _ =>
+      Nat.ltb (eligible_count (preempt_ledger (ledger_of pl t) victims) (minors_of infos t) per)
+              (desired_of count)
+  | _ => false
+  end.
+
 (* ================================================================== structural equality *)
 Definition res_eqb (a b : res) : bool :=
   opt_eqb (r0 a) (r0 b) && opt_eqb (r1 a) (r1 b) && opt_eqb (r2 a) (r2 b).
@@ -150,15 +176,48 @@ Definition ledger_eqb (a b : ledger) : bool :=
 Definition ledgers_eqb (a b : list ledger) : bool :=
   forallb (fun t => ledger_eqb (ledger_of a t) (ledger_of b t)) type_ids.
 
+(* ================================================================== live pods vs allocate set *)
+(* clause 8: the allocate set of every device type holds exactly the pods the environment
+   considers bound, each with the allocation recorded for it (its annotation / the result handed
+   out at Reserve) — so that "sum over the allocate set" is "sum over the live pods" *)
+Definition is_nil {A} (l : list A) : bool := match l with [] => true | _ => false end.
+Definition consb (rec : list (Z * (dallocs * bool))) (t : nat) (a : list (Z * devres)) : bool :=
+  forallb (fun e => match lookup (fst e) rec with
+                    | Some (da, _) =>
+                        match allocs_of da t with
+                        | [] => negb (aset_mem (fst e) a)
+                        | al => match lookup (fst e) a with
+                                | Some d => devres_eqb d (resources_of al)
+                                | None => false
+                                end
+                        end
+                    | None => true
+                    end) rec
+  && forallb (fun e => match lookup (fst e) rec with
+                       | Some (da, _) => negb (is_nil (allocs_of da t))
+                       | None => false
+                       end) a.
+(* how the environment's record of bound pods evolves, judged from the operation and its code *)
+Definition next_rec (rec : list (Z * (dallocs * bool))) (o : op) (out : opout)
+  : list (Z * (dallocs * bool)) :=
+  if negb (o_code out =? 0) then rec
+  else match o with
+       | OSchedule p _ => set_key p (o_allocs out, true) rec
+       | OUnreserve p | OPodDelete p | OPodTerminated p => remove_key p rec
+       | OForeignAdd p al | OPodUpdate p al => set_key p (group_allocs al, false) rec
+       | _ => rec
+       end.
+
 (* ================================================================== the decision procedure *)
 Record track := mkTrack {
   k_infos : list devinfo;     (* inventory of the last refresh *)
   k_prev : list ledger;       (* ledgers observed after the previous operation *)
   k_wf : bool;                (* all environment-supplied data so far were well-formed *)
-  k_env : bool                (* no environment operation so far left a device over-committed *)
+  k_env : bool;               (* no environment operation so far left a device over-committed *)
+  k_rec : list (Z * (dallocs * bool))   (* pods the environment considers bound, with their allocation *)
 }.
 Definition init_track : track :=
-  mkTrack [] [empty_ledger; empty_ledger; empty_ledger] true true.
+  mkTrack [] [empty_ledger; empty_ledger; empty_ledger] true true [].
 
 Definition first_nz (l : list Z) : Z :=
   fold_right (fun c r => if c =? 0 then r else c) 0 l.
@@ -187,6 +246,19 @@ Definition check_schedule (k : track) (rq : rawreq) (out : opout) : Z :=
   else if c =? -1 then 0
   else 7.
 
+Definition check_preempt (k : track) (rq : rawreq) (victims : list Z) (out : opout) : Z :=
+  let c := o_code out in
+  if c =? 0 then
+    chk (forallb (fun t => preempt_enough_t (k_prev k) (k_infos k) victims t rq) type_ids) 10
+  else if c =? 1 then
+    chk (existsb (fun t => preempt_short_t (k_prev k) (k_infos k) victims t rq) type_ids) 11
+  else if c =? 2 then
+    chk (existsb (fun t => is_invalid (treq_of rq t)) type_ids
+         || existsb (fun t => no_device_t (k_prev k) t rq) type_ids) 11
+  else if c =? 4 then
+    chk (negb (existsb (fun t => is_req (treq_of rq t) || is_invalid (treq_of rq t)) type_ids)) 11
+  else 7.
+
 Definition check_step (k : track) (o : op) (ob : obsrec) : Z :=
   let '(out, ls) := ob in
   let wf := k_wf k && op_wf o in
@@ -195,14 +267,20 @@ Definition check_step (k : track) (o : op) (ob : obsrec) : Z :=
     chk (negb wf || forallb (fun t => free_eqb (ledger_of ls t)) type_ids) 1;
     chk (negb wf || forallb (fun t => used_eq_sumb (ledger_of ls t)) type_ids) 2;
     chk (negb (wf && env) || inv_okb ls) 3;
-    (if wf then match o with OSchedule _ rq => check_schedule k rq out | _ => 0 end else 0);
-    chk (negb (is_frame o (o_code out)) || ledgers_eqb (k_prev k) ls) 6
+    (if wf then match o with
+                | OSchedule _ rq => check_schedule k rq out
+                | OPreemptFilter _ rq vs => check_preempt k rq vs out
+                | _ => 0 end
+     else 0);
+    chk (negb (is_frame o (o_code out)) || ledgers_eqb (k_prev k) ls) 6;
+    chk (forallb (fun t => consb (next_rec (k_rec k) o out) t (aset (ledger_of ls t))) type_ids) 8
   ].
 Definition next_track (k : track) (o : op) (ob : obsrec) : track :=
   let '(out, ls) := ob in
   mkTrack (match o with ORefresh inv => inv | _ => k_infos k end) ls
           (k_wf k && op_wf o)
-          (k_env k && (negb (is_env_op o) || inv_okb ls)).
+          (k_env k && (negb (is_env_op o) || inv_okb ls))
+          (next_rec (k_rec k) o out).
 
 Fixpoint prop_from (k : track) (ops : list op) (obs : list obsrec) : Z :=
   match ops, obs with
